@@ -13,7 +13,8 @@ from .common import raising_site
 
 from ndn import appv2, app as appv1, types
 from ndn.app_support import nfd_mgmt
-from ndn.security import KeychainDigest
+from ndn.security import KeychainDigest, DigestSha256Signer
+from ndn.encoding import make_interest, InterestParam
 
 RULE = ('prefixes from the name generator; forwarder replies {200 with/without body, 400/403/404/500/random with/without body, '
         'Nack, silence, garbage content, wrong content type, bad digest signature}; 1..12 concurrent register/unregister calls '
@@ -50,6 +51,7 @@ class Forwarder:
         self.max_inflight = 0
         self.problems = []
         self.idx = 0
+        self.busy_wire = None
         face.on_send = self.on_send
 
     def decode_command(self, wire):
@@ -194,6 +196,14 @@ class Forwarder:
             b0, vs0, ve0 = rc.outer(d, 6)
             kids = rc.children(b0, vs0, ve0)
             d = rc.enc_tlv(6, b0[vs0:kids[-1][1]])
+        if self.busy_wire is not None:
+            # a sequential reader (what DummyFace.input_packet does): the packets are handed over one after the other; in front of the
+            # answer comes a signed Interest for a route of the application whose validator takes its time
+            async def seq():
+                await self.face.deliver(self.busy_wire)
+                await self.face.deliver(d)
+            asyncio.ensure_future(seq())
+            return
         self.face.deliver_task(d)
 
 
@@ -212,6 +222,8 @@ def run_exchange(ctx, rng, fe, ops, script, jitter=False):
     res = {'viol': [], 'rets': None, 'fw': None}
     reuse_lists = len(ops) > 1 and rng.random() < 0.4
     res['strict'] = fe == 'v1' and rng.random() < 0.15
+    res['busy'] = rng.random() < 0.15
+    res['bystander'] = rng.choice([[C(b'localhost')], [C(b'localhost'), C(b'nfd')], [C(b'localhost'), C(b'nfd'), C(b'rib')], []]) if rng.random() < 0.2 else None
 
     async def main(S):
         face = RecFace()
@@ -239,6 +251,41 @@ def run_exchange(ctx, rng, fe, ops, script, jitter=False):
                     except ValueError:
                         pass
 
+        if res['busy']:
+            # another route of the application is busy validating (its validator needs 3 s per signed Interest)
+            async def slow_v1(name, sig):
+                await asyncio.sleep(3)
+                return True
+
+            async def slow_v2(name, sig, context):
+                await asyncio.sleep(3)
+                return appv2.ValidResult.PASS
+            busy = [C(b'busy'), C(b'route')]
+            if fe == 'v2':
+                the_app.attach_handler(busy, lambda *a, **k: None, slow_v2)
+            else:
+                the_app.set_interest_filter(busy, lambda *a, **k: None, slow_v1)
+            fw.busy_wire = bytes(make_interest(busy + [C(b'q')], InterestParam(nonce=77, lifetime=6000), b'ask', DigestSha256Signer()))
+            ctx.event('exchange-while-another-route-validates-slowly')
+        bystander = None
+        if res['bystander'] is not None:
+            # the application has other business with the same name space: a pending CanBePrefix Interest for an ancestor of the
+            # command names (a status / notification consumer). The forwarder's answers satisfy it as well - and the commands still
+            async def watch():
+                try:
+                    if fe == 'v2':
+                        await the_app.express(res['bystander'], appv2.pass_all, can_be_prefix=True, lifetime=8000, nonce=9)
+                    else:
+                        async def yes(n, sig):
+                            return True
+                        await the_app.express_interest(res['bystander'], validator=yes, can_be_prefix=True, lifetime=8000, nonce=9)
+                    res['bystander_got'] = True
+                except Exception:   # noqa
+                    pass
+            bystander = asyncio.ensure_future(watch())
+            await asyncio.sleep(0)
+            ctx.event('exchange-beside-a-pending-prefix-interest-for-an-ancestor')
+
         args_given = []
 
         async def one(verb, prefix):
@@ -265,6 +312,8 @@ def run_exchange(ctx, rng, fe, ops, script, jitter=False):
             ctx.event('caller-edits-name-list-after-call')
         rets = await asyncio.gather(*tasks)
         res['rets'] = rets
+        if bystander is not None and not bystander.done():
+            bystander.cancel()
         the_app.shutdown()
         await asyncio.wait_for(main_task, 5)
 
@@ -286,6 +335,10 @@ def run_exchange(ctx, rng, fe, ops, script, jitter=False):
         S = vtime.run(main)
     fw = res['fw']
     w = {'frontend': fe, 'ops': [(v, [c.hex() for c in p]) for v, p in ops], 'script': script, 'jitter': jitter}
+    if res['busy']:
+        w['busy_route'] = 'a signed Interest for a route with a 3 s validator is delivered in front of every answer, one packet after the other'
+    if res['bystander'] is not None:
+        w['pending_prefix_interest'] = [c.hex() for c in res['bystander']]
     if S.result != 'ok':
         ctx.report(f'scenario-{S.result}:{fe}', f'{S.error!r}', w)
         return
